@@ -1,6 +1,7 @@
 // unit: broker_bus_listener   property: C10 (listener start/stop state machine, cached-flag reset)
 use vstd::prelude::*;
 use vstd::std_specs::hash::*;
+use vstd::std_specs::cmp::*;
 use std::collections::HashSet;
 use std::hash::{Hash, Hasher};
 
@@ -10,11 +11,40 @@ verus! {
 #[verifier::external_body]
 pub struct ConnectionId { _p: () }
 
-// BusListenerFilter is opaque here: the functions under contract never look inside a filter.
-#[verifier::external_body]
-#[derive(Clone, Copy)]
-pub struct BusListenerFilter { _p: () }
+// UUID newtypes: opaque Copy keys with structural equality
+macro_rules! opaque_copy_key {
+    ($t:ident) => {
+        verus! {
+        #[verifier::external_body]
+        #[derive(Clone, Copy)]
+        pub struct $t { _p: () }
+        impl PartialEqSpecImpl for $t {
+            open spec fn obeys_eq_spec() -> bool { true }
+            open spec fn eq_spec(&self, other: &Self) -> bool { *self == *other }
+        }
+        impl PartialEq for $t {
+            #[verifier::external_body]
+            fn eq(&self, other: &Self) -> (r: bool) { unimplemented!() }
+        }
+        impl Eq for $t {}
+        impl Hash for $t {
+            #[verifier::external_body]
+            fn hash<H: Hasher>(&self, state: &mut H) { unimplemented!() }
+        }
+        }
+    };
+}
+opaque_copy_key!(ObjectUuid);
+opaque_copy_key!(ServiceUuid);
 
+// the real filter types (core/src/bus_listener.rs). #[derive(PartialEq, Eq, Hash)] = structural equality with a consistent
+// hash: ASSUMED (eq_spec below, key-model axiom)
+//@item core/src/bus_listener.rs enum BusListenerFilter attr=derive(Clone,Copy)
+//@item core/src/bus_listener.rs struct BusListenerServiceFilter attr=derive(Clone,Copy)
+impl PartialEqSpecImpl for BusListenerFilter {
+    open spec fn obeys_eq_spec() -> bool { true }
+    open spec fn eq_spec(&self, other: &Self) -> bool { *self == *other }
+}
 impl PartialEq for BusListenerFilter {
     #[verifier::external_body]
     fn eq(&self, other: &Self) -> (r: bool) { unimplemented!() }
@@ -47,6 +77,48 @@ impl BusListener {
             r.matches_all_objects == false,        // cached flags = their values for the empty filter set
             r.matches_specific_services == true,
             r.conn_id == conn_id,
+            r.flags_ok(),
+    //@end
+
+    // a filter that names both an object and a service
+    spec fn is_specific_service(f: BusListenerFilter) -> bool {
+        f matches BusListenerFilter::Service(s) && s.object is Some && s.service is Some
+    }
+
+    // the cached flags say what they are meant to say about the filter set: `matches_all_objects` iff the any-object filter
+    // is present, `matches_specific_services` iff every filter names both an object and a service (these guard the
+    // unreachable!() arms of specific_objects() / specific_services())
+    spec fn flags_ok(&self) -> bool {
+        &&& self.matches_all_objects == self.filters@.contains(BusListenerFilter::Object(None))
+        &&& self.matches_specific_services == (forall|f: BusListenerFilter| self.filters@.contains(f) ==> Self::is_specific_service(f))
+    }
+
+    // (`|=` / `&=` on bool desugared by the extractor, normalisation N10)
+    //@fn broker/src/bus_listener.rs BusListener::add_filter
+        requires old(self).flags_ok(),
+        ensures
+            final(self).flags_ok(),
+            final(self).filters@ == old(self).filters@.insert(filter),
+            final(self).scope == old(self).scope,
+            final(self).conn_id == old(self).conn_id,
+    //@ghost fn-tail
+        proof {
+            let old_all = forall|f: BusListenerFilter| old(self).filters@.contains(f) ==> Self::is_specific_service(f);
+            let new_all = forall|f: BusListenerFilter| self.filters@.contains(f) ==> Self::is_specific_service(f);
+            assert(self.filters@ == old(self).filters@.insert(filter));
+            if old_all && Self::is_specific_service(filter) {
+                assert forall|f: BusListenerFilter| self.filters@.contains(f) implies Self::is_specific_service(f) by {
+                    if f != filter { assert(old(self).filters@.contains(f)); }
+                }
+            }
+            if new_all {
+                assert(self.filters@.contains(filter));
+                assert forall|f: BusListenerFilter| old(self).filters@.contains(f) implies Self::is_specific_service(f) by {
+                    assert(self.filters@.contains(f));
+                }
+            }
+            assert(new_all == (old_all && Self::is_specific_service(filter)));
+        }
     //@end
 
     //@fn broker/src/bus_listener.rs BusListener::conn_id
@@ -58,6 +130,7 @@ impl BusListener {
             final(self).filters@ == Set::<BusListenerFilter>::empty(),
             final(self).matches_all_objects == false,
             final(self).matches_specific_services == true,
+            final(self).flags_ok(),
             final(self).scope == old(self).scope,
             final(self).conn_id == old(self).conn_id,
     //@end
